@@ -19,7 +19,7 @@
 (***************************************************************************)
 EXTENDS Integers, Sequences, FiniteSets, TLC, Json
 
-CONSTANTS NF             \* number of fields of the relabelled model
+CONSTANTS NF             \* number of fields of the relabelled model (2: TwoField, 3: ThreeField of harness/models.py)
 
 Perms == {p \in [1..NF -> 1..NF] : \A a, b \in 1..NF : a # b => p[a] # p[b]}
 Signs == [1..NF -> {-1, 1}]
@@ -35,7 +35,7 @@ Init == job = [active |-> FALSE]
 UnitsJob(model, setting) == ~job.active /\ job' = [active |-> TRUE, kind |-> "units", model |-> model, setting |-> setting, scales |-> Scales]
 RelabelJob(g) == ~job.active /\ g # Identity /\ job' = [active |-> TRUE, kind |-> "relabel", g |-> g]
 Done == job.active /\ job' = [active |-> FALSE]
-Next == (\E m \in {"one", "two"}, st \in {"default", "tight"} : UnitsJob(m, st)) \/ (\E g \in Group : RelabelJob(g)) \/ Done
+Next == (\E m \in {"one", "two", "three"}, st \in {"default", "tight"} : UnitsJob(m, st)) \/ (\E g \in Group : RelabelJob(g)) \/ Done
 Spec == Init /\ [][Next]_vars
 
 \* group facts used by the relations: every element has an inverse, permuting twice composes
